@@ -620,7 +620,45 @@ fn gen_text(rng: &mut Rng, all: &[Vec<Row>]) -> String {
 }
 
 fn desc(csvs: &[String], texts: &[String], exacts: &[String]) -> Value {
-    json!({"kind": "c04", "csvs": csvs, "texts": texts, "exacts": exacts})
+    let cli = CLI_FILES.with(|c| c.borrow().clone());
+    match cli {
+        Some(files) => json!({"kind": "c04", "csvs": csvs, "texts": texts, "exacts": exacts,
+                              "cli_build_files_in_given_order": files.iter().map(|(n, t)| json!([n, t])).collect::<Vec<_>>()}),
+        None => json!({"kind": "c04", "csvs": csvs, "texts": texts, "exacts": exacts}),
+    }
+}
+
+thread_local! {
+    /// when set: dictionary 0 of the next case is built by the command-line tool (`sudachi build`) from these lexicon files,
+    /// given on the command line in this order (a name may occur more than once)
+    static CLI_FILES: std::cell::RefCell<Option<Vec<(String, String)>>> = std::cell::RefCell::new(None);
+    static CLI_DIR: std::cell::RefCell<std::path::PathBuf> = std::cell::RefCell::new(std::path::PathBuf::from("."));
+}
+
+/// `sudachi build -m matrix -o out -d c04 <files in the given order>` with the tool built from the working tree
+fn cli_build_system(files: &[(String, String)]) -> Result<Vec<u8>, String> {
+    let cli = std::env::var("VERIF_CLI_BIN").unwrap_or_default();
+    if cli.is_empty() || !std::path::Path::new(&cli).exists() {
+        return Err("NO-CLI".to_string());
+    }
+    let dir = CLI_DIR.with(|d| d.borrow().clone()).join("c04_cli");
+    let _ = std::fs::remove_dir_all(&dir);
+    std::fs::create_dir_all(&dir).map_err(|e| e.to_string())?;
+    for (n, t) in files {
+        std::fs::write(dir.join(n), t).map_err(|e| e.to_string())?;
+    }
+    let out = dir.join("out.dic");
+    let mut cmd = std::process::Command::new(&cli);
+    cmd.arg("build").arg("-m").arg(format!("{}/sudachi/tests/resources/matrix_10x10.def", repo())).arg("-o").arg(&out).arg("-d").arg("c04");
+    for (n, _) in files {
+        cmd.arg(dir.join(n));
+    }
+    cmd.env("RUST_BACKTRACE", "0");
+    let o = cmd.output().map_err(|e| format!("cannot start {}: {}", cli, e))?;
+    if !o.status.success() {
+        return Err(format!("`sudachi build` failed ({:?}): {}", o.status.code(), String::from_utf8_lossy(&o.stderr).chars().take(300).collect::<String>()));
+    }
+    std::fs::read(&out).map_err(|e| format!("`sudachi build` wrote no dictionary: {}", e))
 }
 
 fn parse_rows(csv: &str) -> Vec<Row> {
@@ -640,7 +678,21 @@ fn run_case(sink: &mut Sink, csvs: &[String], texts: &[String], exacts: &[String
     // compile
     let mut bins: Vec<Vec<u8>> = vec![];
     for (i, csv) in csvs.iter().enumerate() {
-        let r = if i == 0 { build_system(csv) } else { build_user_bare(&bins[0], csv) };
+        let cli_files = if i == 0 { CLI_FILES.with(|c| c.borrow().clone()) } else { None };
+        let r = match (&cli_files, i) {
+            (Some(files), 0) => {
+                sink.tag("dictionary_built_by_sudachi_build");
+                cli_build_system(files)
+            }
+            (_, 0) => build_system(csv),
+            _ => build_user_bare(&bins[0], csv),
+        };
+        if let Err(e) = &r {
+            if e == "NO-CLI" {
+                sink.tag("cli_stage_skipped_no_VERIF_CLI_BIN");
+                return;
+            }
+        }
         match r {
             Ok(b) => bins.push(b),
             Err(e) => {
@@ -910,6 +962,10 @@ fn run_case(sink: &mut Sink, csvs: &[String], texts: &[String], exacts: &[String
     }
     let nontrivial = total_hits >= 2 && (has_prefix_pair || max_homo > 1 || csvs.len() > 1);
     let id = sink.case(term, d, nontrivial);
+    let bad = match (bad, CLI_FILES.with(|c| c.borrow().clone())) {
+        (Some(b), Some(files)) => Some(format!("dictionary written by `sudachi build {}` (word number = position of the row in the files as given): {}", files.iter().map(|f| f.0.clone()).collect::<Vec<_>>().join(" "), b)),
+        (b, _) => b,
+    };
     if let Some(b) = bad {
         if verbose {
             println!("FAIL: {}", b);
@@ -953,6 +1009,7 @@ fn gen_case(rng: &mut Rng, layers: usize, shape: u64) -> (Vec<String>, Vec<Strin
 
 pub fn run(args: &Args) {
     let mut sink = Sink::new("C04", &args.out, &["Model.LexSet", "Model.IndexBuild", "Model.DictCands"], args.seed, &args.tier);
+    CLI_DIR.with(|d| *d.borrow_mut() = args.work.clone());
     sink.shard_size = 12;
     sink.rule("stacks of 1..15 dictionaries compiled by DictBuilder from generated CSVs (keys over a 16-letter alphabet of 1/2/3/4-byte characters incl. '#' and the apostrophe; keys extended/cut from other keys so that keys are prefixes of others; homographs up to 127; keys shared between layers; rows with a negative left id (-1, -2, -3, -7, -100, -32768; right id negative or not)) + hand-made double arrays (2-4 blocks, offsets written in the wide form wherever possible) fed directly to Trie::new_owned / common_prefix_iterator and compared with their key set and with the model x texts concatenated from keys and letters, LexiconSet::lookup at EVERY byte offset (incl. inside characters) x exact-surface MorphemeList::lookup of keys / near-keys; each case also certifies every trie with the verified enumerator; non-trivial = at least 2 entries returned and (a key is a proper prefix of another, or homographs, or more than one layer); distinct by generated Coq term");
     if let Some(p) = &args.replay {
@@ -969,6 +1026,11 @@ pub fn run(args: &Args) {
             sink.finish();
             return;
         }
+        if let Some(f) = case["cli_build_files_in_given_order"].as_array() {
+            let files: Vec<(String, String)> = f.iter().map(|x| (x[0].as_str().unwrap().to_string(), x[1].as_str().unwrap().to_string())).collect();
+            println!("dictionary 0 is built by `sudachi build` from the files, in this order: {:?}", files.iter().map(|x| x.0.clone()).collect::<Vec<_>>());
+            CLI_FILES.with(|c| *c.borrow_mut() = Some(files));
+        }
         let gs = |k: &str| -> Vec<String> { case[k].as_array().map(|a| a.iter().map(|x| x.as_str().unwrap().to_string()).collect()).unwrap_or_default() };
         let (csvs, texts, exacts) = (gs("csvs"), gs("texts"), gs("exacts"));
         for (i, c) in csvs.iter().enumerate() {
@@ -979,6 +1041,48 @@ pub fn run(args: &Args) {
         return;
     }
     let mut rng = Rng::new(args.seed);
+    // CLI stage: the lexicon split over several files which are given to `sudachi build` in NON-alphabetical order and with a
+    // path given twice; lookup on the dictionary it writes must agree with the CSV scan of the rows in the GIVEN order
+    // (word number = position in that concatenation).  One fixed lexicon and a few generated ones, whatever the seed.
+    {
+        let mut crng = Rng::new(args.seed ^ 0xC04C11);
+        for round in 0..4 {
+            let parts: Vec<String> = if round == 0 {
+                vec![
+                    "東京,1,1,100,東京,名詞,普通名詞,一般,*,*,*,*,*,*,A,*,*,*,*\n京都,2,2,100,京都,名詞,普通名詞,一般,*,*,*,*,*,*,A,*,*,*,*\n".to_string(),
+                    "東,3,3,100,東,名詞,普通名詞,一般,*,*,*,*,*,*,A,*,*,*,*\n東京都,4,4,100,東京都,名詞,普通名詞,一般,*,*,*,*,*,*,A,*,*,*,*\n都,-1,-1,100,都,名詞,普通名詞,一般,*,*,*,*,*,*,A,*,*,*,*\n".to_string(),
+                    "京,5,5,100,京,名詞,普通名詞,一般,*,*,*,*,*,*,A,*,*,*,*\n".to_string(),
+                ]
+            } else {
+                let n = 2 + crng.below(2) as usize;
+                let mut shared: Vec<Row> = vec![];
+                (0..n)
+                    .map(|_| {
+                        let rows = gen_rows(&mut crng, &shared, 1);
+                        shared.extend(rows.iter().cloned());
+                        render(&rows, &mut crng)
+                    })
+                    .collect()
+            };
+            // names chosen so that the given order is not the sorted one; the first file is given again at the end
+            let names = ["zz_first.csv", "aa_second.csv", "mm_third.csv"];
+            let mut files: Vec<(String, String)> = parts.iter().enumerate().map(|(k, t)| (names[k].to_string(), t.clone())).collect();
+            if round != 1 {
+                files.push(files[0].clone());
+            }
+            let csv: String = files.iter().map(|f| f.1.clone()).collect();
+            let all = vec![parse_rows(&csv)];
+            let texts: Vec<String> = if round == 0 { vec!["東京都京都".to_string(), "京都東".to_string()] } else { (0..3).map(|_| gen_text(&mut crng, &all)).collect() };
+            let mut exacts: Vec<String> = all[0].iter().map(|r| r.surface.clone()).collect();
+            exacts.sort();
+            exacts.dedup();
+            exacts.truncate(8);
+            CLI_FILES.with(|c| *c.borrow_mut() = Some(files));
+            run_case(&mut sink, &[csv], &texts, &exacts, true, false);
+            CLI_FILES.with(|c| *c.borrow_mut() = None);
+            sink.tag("cli_stage_files_in_non_alphabetical_order");
+        }
+    }
     // corpus: the shipped test lexicon with its two user lexicons
     {
         let rd = |f: &str| std::fs::read_to_string(format!("{}/sudachi/tests/resources/{}", repo(), f)).unwrap();
